@@ -35,6 +35,20 @@ func verifC04CoreFree() string {
 // PATCH /v3/config/global/patch (hot reload, no restart), and asks again until the answer is 401 (or 3 s passed).
 // Answer: "before=<status> after=<status>".
 func verifC04CoreExclude(srv string) string {
+	// the free ports are found by listen-and-close: another process (a check running beside this one) can take one
+	// before Core binds it, so a Core that does not start is retried with fresh ports
+	res := ""
+	for try := 0; try < 6; try++ {
+		res = verifC04CoreExcludeOnce(srv)
+		if res != "err core did not start" {
+			return res
+		}
+		time.Sleep(time.Duration(50*(try+1)) * time.Millisecond)
+	}
+	return res
+}
+
+func verifC04CoreExcludeOnce(srv string) string {
 	hook := httptest.NewServer(http.HandlerFunc(func(w http.ResponseWriter, _ *http.Request) { w.WriteHeader(http.StatusUnauthorized) }))
 	defer hook.Close()
 	dir, err := os.MkdirTemp("", "verifc04core")
